@@ -10,6 +10,7 @@ pub mod c11;
 pub mod c13;
 pub mod c15;
 pub mod c17;
+pub mod c19;
 pub mod seeds;
 
 /// Run the check for a property; returns the process exit code.
@@ -24,6 +25,7 @@ pub fn run(prop: &str, tier: Tier, seed: u64) -> Option<i32> {
         "C13" => c13::run(tier, seed),
         "C15" => c15::run(tier, seed),
         "C17" => c17::run(tier, seed),
+        "C19" => c19::run(tier, seed),
         _ => return None,
     })
 }
@@ -38,6 +40,7 @@ pub fn replay(prop: &str, witness: &serde_json::Value) -> Option<i32> {
         "C13" => c13::replay(witness),
         "C15" => c15::replay(witness),
         "C17" => c17::replay(witness),
+        "C19" => c19::replay(witness),
         _ => return None,
     })
 }
